@@ -237,7 +237,13 @@ pub fn execute_add_native_token_decimals(
     add_allow_native_token(deps.storage, denom.to_string(), decimals)?;
 
     // Update the native token decimals for the existing pairs
-    let pair_infos = read_pairs(deps.storage, deps.api, None, None)?;
+    let pair_infos = PAIRS
+        .range(deps.storage, None, None, cosmwasm_std::Order::Ascending)
+        .map(|item| {
+            let (_, v) = item?;
+            v.to_normal(deps.api)
+        })
+        .collect::<StdResult<Vec<PairInfo>>>()?;
 
     // If the native token is already exist, then update the decimals for the existing pairs
     if is_native_exist {
